@@ -58,7 +58,12 @@ func (r *Run) RunBatchesOpts(mode string, cases []interface{}, o BatchOpts) ([]j
 		o.Size = 1
 	}
 	if o.Bin == "" {
-		o.Bin = r.Bin("vcheck")
+		bin, ok := r.WorkerBin(mode)
+		if !ok {
+			r.Inconclusive("worker-unavailable")
+			return results, nil
+		}
+		o.Bin = bin
 	}
 	if o.Watchdog == 0 {
 		o.Watchdog = 30 * time.Minute
